@@ -302,6 +302,10 @@ func (c20) Generate(seed uint64, i int, tier string) *Scenario {
 	r := NewRng(mix64(seed, uint64(i)) ^ 0xc20)
 	sc := &Scenario{Prop: "C20", Family: "history", Seed: seed, Index: i, N: map[string]int64{}}
 	n := r.Range(1, 16)
+	theme := 0
+	if r.Chance(1, 4) {
+		theme = 1
+	}
 	pickField := func(fs []c20field) string { return fs[r.Intn(len(fs))].name }
 	for j := 0; j < n; j++ {
 		op := Op{Obj: r.Intn(4), A: int64(r.Intn(4)), B: int64(r.Intn(len(c20pool)))}
@@ -340,14 +344,42 @@ func (c20) Generate(seed uint64, i int, tier string) *Scenario {
 			op.Op = "mapmsgmut"
 		case m < 92:
 			op.Op = "roundtrip"
-		case m < 95:
+		case m < 94:
 			op.Op, op.S = "itermut", pickField(c20reps)
+		case m < 95 || (m >= 95 && r.Chance(1, 2)):
+			// wrappers obtained now and used later, possibly after a freeze
+			if r.Bool() {
+				op.Op = "hold"
+				op.Args = []int64{int64(r.Intn(2)), int64(r.Intn(len(c20holdRoutes)))}
+			} else {
+				op.Op = "mutheld"
+				op.Args = []int64{int64(r.Intn(2))}
+			}
 		case m < 97:
 			op.Op = "new"
 		default:
 			op.Op, op.S = "newkw", pickField(c20scalars)
 		}
-		if vs := c20valuesFor(op.S); len(vs) > 0 && (op.Op == "set" || op.Op == "newkw") && r.Chance(3, 4) {
+		if theme == 1 {
+			// themed history "wrappers held across a freeze": populate message-
+			// valued fields, take wrappers by every route, freeze, use them
+			op.Obj, op.A = r.Pick3(0, 0, 1), int64(r.Pick3(0, 0, 1))
+			switch m := r.Intn(100); {
+			case m < 30:
+				op.Op, op.S, op.Args = "set", r.Pick([]string{"r_sub", "m_isub", "sub", "r_int32", "m_ss", "r_sub"}), nil
+			case m < 55:
+				op.Op, op.S = "hold", ""
+				op.Args = []int64{int64(r.Intn(2)), int64(r.Intn(len(c20holdRoutes)))}
+			case m < 72:
+				op.Op, op.S, op.Args = "freeze", "", nil
+			case m < 95:
+				op.Op, op.S = "mutheld", ""
+				op.Args = []int64{int64(r.Intn(2))}
+			default:
+				op.Op, op.S, op.Args = "roundtrip", "", nil
+			}
+		}
+		if vs := c20valuesFor(op.S); len(vs) > 0 && (op.Op == "set" || op.Op == "newkw") && (r.Chance(3, 4) || theme == 1) {
 			op.B = int64(vs[r.Intn(len(vs))])
 		}
 		if (op.Op == "alias_rec") && int(op.A) == op.Obj && !r.Chance(1, 40) {
@@ -356,6 +388,24 @@ func (c20) Generate(seed uint64, i int, tier string) *Scenario {
 		sc.Ops = append(sc.Ops, op)
 	}
 	return sc
+}
+
+// c20holdRoutes: ways of obtaining a wrapper (view, element, sub-message) that
+// the history keeps and mutates through later.
+var c20holdRoutes = []string{
+	"R = [e for e in A.r_sub]\n",
+	"R = A.r_sub[0]\n",
+	"R = A.r_sub\n",
+	"R = A.sub\n",
+	"R = A.m_isub[1]\n",
+	"R = A.m_isub\n",
+	"R = A.r_int32\n",
+	"R = list(A.r_sub)\n",
+	"R = sorted(A.r_sub, key=lambda e: e.n)\n",
+	"R = [A.m_isub[k] for k in A.m_isub]\n",
+	"R = A.sub.child\n",
+	"R = A.rec\n",
+	"R = A.m_ss\n",
 }
 
 // ---------------------------------------------------------------------------
@@ -376,6 +426,10 @@ type c20run struct {
 	opIdx              int
 	env                starlark.StringDict
 	accepted, rejected int
+	held               [2]starlark.Value
+	heldOwner          [2]*starproto.Message
+	heldHad            [2]bool // the held wrapper wrapped present (not default) storage
+	frozenMsg          map[*starproto.Message]bool
 }
 
 func (x *c20run) star(src string, env starlark.StringDict) (v starlark.Value, err error, pv any) {
@@ -592,7 +646,11 @@ func expectScalar(kind string, v starlark.Value) string {
 			}
 			return "fail"
 		case starlark.Int:
-			if n, err := starlark.AsInt32(e); err == nil && c20color.Values().ByNumber(protoreflect.EnumNumber(n)) != nil {
+			n, err := starlark.AsInt32(e)
+			if err != nil {
+				return "fail" // not even an int32: outside the range of every enum
+			}
+			if c20color.Values().ByNumber(protoreflect.EnumNumber(n)) != nil {
 				return "store"
 			}
 			return "either"
@@ -619,8 +677,8 @@ func sameScalar(kind string, got, want starlark.Value) bool {
 		case starproto.EnumValueDescriptor:
 			return g.Desc.Number() == w.Desc.Number()
 		case starlark.Int:
-			n, _ := starlark.AsInt32(w)
-			return int(g.Desc.Number()) == n
+			n, err := starlark.AsInt32(w)
+			return err == nil && int(g.Desc.Number()) == n
 		case starlark.String:
 			return string(g.Desc.Name()) == string(w)
 		}
@@ -673,7 +731,7 @@ func fieldKind(name string) (kind string, shape string) {
 func (p c20) Run(sc *Scenario) *Result {
 	c20descriptors()
 	res := NewResult()
-	x := &c20run{sc: sc, res: res, snaps: map[int][]byte{}}
+	x := &c20run{sc: sc, res: res, snaps: map[int][]byte{}, frozenMsg: map[*starproto.Message]bool{}}
 	x.th = &starlark.Thread{Name: "c20"}
 	x.env = starlark.StringDict{
 		"Msg": starproto.MessageDescriptor{Desc: c20msg}, "Sub": starproto.MessageDescriptor{Desc: c20sub},
@@ -820,7 +878,62 @@ func (x *c20run) apply(op Op) {
 	case "freeze":
 		A.Freeze()
 		x.frozen[op.Obj] = true
+		x.frozenMsg[A] = true
 		x.snaps[op.Obj] = detEnc(A)
+	case "hold":
+		slot, route := int(op.Args[0])%2, int(op.Args[1])%len(c20holdRoutes)
+		if v, err := run(c20holdRoutes[route]); err == nil && v != nil {
+			x.held[slot], x.heldOwner[slot] = v, A
+			// default (absent) sub-messages and views are frozen empties by design
+			fieldOf := map[int]string{0: "r_sub", 1: "r_sub", 2: "r_sub", 3: "sub", 4: "m_isub", 5: "m_isub", 6: "r_int32", 7: "r_sub", 8: "r_sub", 9: "m_isub", 10: "sub", 11: "rec", 12: "m_ss"}[route]
+			x.heldHad[slot] = A.Message().ProtoReflect().Has(c20msg.Fields().ByName(protoreflect.Name(fieldOf)))
+			if route == 10 {
+				s := A.Message().ProtoReflect().Get(c20msg.Fields().ByName("sub")).Message()
+				x.heldHad[slot] = x.heldHad[slot] && s.Has(c20sub.Fields().ByName("child"))
+			}
+		}
+	case "mutheld":
+		slot := int(op.Args[0]) % 2
+		h := x.held[slot]
+		if h == nil {
+			return
+		}
+		env["A"] = h
+		var src string
+		switch hv := h.(type) {
+		case *starproto.Message:
+			if hv.Message().ProtoReflect().Descriptor() == c20sub {
+				src = "def op():\n    A.s = \"through-held-wrapper\"\nop()\nR = None\n"
+			} else {
+				src = "def op():\n    A.f_int32 = 77\nop()\nR = None\n"
+			}
+		case *starproto.RepeatedField:
+			if hv.Len() > 0 && strings.Contains(hv.Type(), "Sub") {
+				src = "def op():\n    A[0].s = \"through-held-view\"\nop()\nR = None\n"
+			} else if strings.Contains(hv.Type(), "int32") {
+				src = "def op():\n    A.append(5)\nop()\nR = None\n"
+			}
+		case *starproto.MapField:
+			if strings.Contains(hv.Type(), "string, string") {
+				src = "def op():\n    A[\"held\"] = \"v\"\nop()\nR = None\n"
+			} else if hv.Len() > 0 {
+				src = "def op():\n    A[1].s = \"through-held-map\"\nop()\nR = None\n"
+			}
+		case *starlark.List:
+			if hv.Len() > 0 {
+				src = "def op():\n    A[0].s = \"through-held-element\"\nop()\nR = None\n"
+			}
+		}
+		if src == "" {
+			return
+		}
+		_, err := run(src)
+		if len(x.res.Violations) > nviol {
+			return
+		}
+		if x.heldHad[slot] && x.frozenMsg[x.heldOwner[slot]] && err == nil {
+			x.fail("mutation-of-frozen-message-succeeded", "a wrapper obtained from the message before it was frozen still accepted %s", strings.TrimSpace(strings.Split(src, "\n")[1]))
+		}
 	case "set":
 		kind, shape := fieldKind(op.S)
 		var before []byte
@@ -1132,6 +1245,12 @@ func (c20) Shape(sc *Scenario, class string) string {
 		switch o.Op {
 		case "alias_sub", "alias_rec", "alias_child":
 			alias = true
+		case "alias_rep", "alias_map":
+			// assigning a repeated/map field of MESSAGES copies the container but
+			// aliases each element message (the same toProto path)
+			if k, _ := fieldKind(o.S); strings.Contains(k, "msg") {
+				alias = true
+			}
 		case "copy":
 			copyOp = true
 		}
